@@ -64,6 +64,8 @@ class World:
             self.by_dev.clear()
         t = Target(devtype, qualifier)
         self.n += 1
+        # standard INQUIRY data of every legal size: the minimum, the usual ones, and more than the 96 bytes asked for
+        t.inquiry_length = (96, 36, 96, 97, 128, 255, 256, 260, 74, 58, 100, 200)[self.n % 12]
         if self.transport == "sgio":
             dev, node = self.install.sgio_device()
             self.by_dev[node] = t
